@@ -311,7 +311,13 @@ Shared == {Agg(f, Rep(Lst(Rep(Lst(Nn(0)), x)), y)) : f \in {"max", "min", "sum"}
           \cup {Agg(f, Rep(Lst(Rep(Lst(Rep(Lst(Nn(0)), x)), y)), z)) : f \in {"max", "min"}, x \in {Nn(9), Nn(1000)}, y \in {Nn(1000)}, z \in {Nn(1000), Nn(1000000)}}
           \cup {Agg("sumcat", Rep(Lst(Rep(Lst(Nn(0)), x)), y)) : x \in {Nn(1), Nn(9), Nn(1000)}, y \in Counts}                  \* sum([[0] * x] * y, [])
           \cup {Agg(f, Rep(Lst([k |-> "s", n |-> 3]), y)) : f \in {"max", "min"}, y \in Counts}
-Bombs == B1ok \cup Towers \cup Negs \cup Shared
+(* deeper sharing (three to five levels of repetition, every level within the per-level guard) under an aggregate or a comparison of two separately built copies *)
+Nest(c1, c2, c3) == Rep(Lst(Rep(Lst(Rep(Lst(Nn(0)), c1)), c2)), c3)
+Nest5(c1, c2, c3, c4, c5) == Rep(Lst(Rep(Lst(Nest(c1, c2, c3)), c4)), c5)
+DeepShared == {Agg(f, Nest(a, b, c)) : f \in {"max", "min", "eq", "lt"}, a \in {Nn(9), Nn(999)}, b \in {Nn(9), Nn(999)}, c \in {Nn(9), Nn(999)}}
+              \cup {Agg(f, Nest5(Nn(999), Nn(999), Nn(500), Nn(400), Nn(300))) : f \in {"max", "eq", "lt"}}
+              \cup {Agg(f, Nest5(Nn(9), Nn(9), Nn(9), Nn(9), c)) : f \in {"min", "eq"}, c \in {Nn(9), Nn(999)}}
+Bombs == B1ok \cup Towers \cup Negs \cup Shared \cup DeepShared
 BombCase(e) == [ast |-> e, lo |-> MaxLo(e), hi |-> MaxHi(e), alo |-> Abs(e).lo, ahi |-> Abs(e).hi, work |-> Work(e),
                 bomb |-> (MaxLo(e) > BombLimit \/ Work(e) > BombLimit), safe |-> MaxHi(e) <= SafeLimit]
 
